@@ -10,7 +10,7 @@
 
    API   op, opres, tape_state (mkTape), tape_oracle, run_op, run_ops, obs (final observation),
          impl_tx (the implementation's transaction as re-read by the harness), mint_of_entries, judge, verdict *)
-From CSL Require Import Base.Prelude Base.U64 Num.Value Deposits.Deposits Builder.Totals Builder.Change.
+From CSL Require Import Base.Prelude Base.U64 Num.Value Num.ValueNorm Deposits.Deposits Builder.Totals Builder.Change.
 Local Open Scope N_scope.
 
 Inductive op : Type :=
@@ -114,7 +114,7 @@ Definition run_op (utxos : list (N * value)) (x : op) (s : state) (o : tape_stat
   match x with
   | OpInput id =>
       (pure_op s o (match lookup_utxo utxos id with
-                    | Some v => Ok (set_s_inputs (inputs_insert id v (s_inputs s)) s)
+                    | Some v => Ok (set_s_inputs (inputs_insert id (value_without_empty_entries v) (s_inputs s)) s)
                     | None => Err end), None)
   | OpOutput x => (finish (add_output tape_oracle x s o) (fun _ => ROk), None)
   | OpCerts c => (pure_op s o (Ok (set_s_certs c s)), None)
